@@ -600,6 +600,10 @@ pub fn labels(f: &Facts, m: &Model) -> Vec<&'static str> {
     if m.n_roots() > 1 {
         l.push("multiroot");
     }
+    if m.anc.iter().any(|a| a.len() > 30) {
+        // more ancestors than the id group stores inline
+        l.push("ancestors>30");
+    }
     if (0..m.len()).any(|i| m.parents[i].is_empty() && m.children[i].is_empty()) && m.len() > 1 {
         l.push("detached");
     }
